@@ -1,5 +1,163 @@
-"""Run-level trace validation shared by the properties judged on recorded runs (built incrementally)."""
+"""Run-level trace validation shared by the properties judged on recorded runs of the real mediator.
+
+Every property check records its own runs (all runnable shipped configurations + generated variants), validates each
+trace with TLC against TraceEcmc.tla (all clauses are evaluated; the check reports the clauses of its own property) and
+adds the counts to its evidence."""
+import collections
+import json
+import os
+
+from harness import runs
+from harness.build import Scratch
+
+# which record kinds must have occurred for a property's clauses to have been exercised at all (vacuity guard)
+NEEDS = {
+    "C04": ["thin"], "C05": ["lift"], "C07": ["commit"], "C08": ["commit_interaction"], "C09": ["run"],
+    "C10": ["cells"], "C11": ["cells"], "C12": ["c12"], "C13": ["commit", "time"], "C17": ["write_state"],
+    "C18": ["cellveto"],
+}
+CELL_CONFIGS = [c for c in runs.SHIPPED if "cell" in c]
+COMPOSITE = [c for c in runs.SHIPPED if "dipole" in c or "water" in c]
+
+
+def jobs_for(pid, tier, seed):
+    quick = tier == "quick"
+    legs = 300 if quick else 3000
+    seeds = [seed] if quick else [seed, seed + 1, seed + 2]
+    configs = list(runs.SHIPPED)
+    if pid in ("C10", "C11", "C18"):
+        configs = CELL_CONFIGS
+        legs = 600 if quick else 5000
+    if pid == "C12":
+        configs = COMPOSITE
+    jobs = []
+    for s in seeds:
+        for c in configs:
+            name = "%s_%s_s%d" % (c.split("/")[-2], c.split("/")[-1][:-4], s)
+            sets = ["FinalTimeEndOfRunEventHandler.end_of_run_time=%s" % ("25" if quick else "200")]
+            jobs.append(dict(name=name, config=c, seed=s, legs=legs, sets=sets))
+    jobs += generated_jobs(pid, tier, seed)
+    return jobs
+
+
+def generated_jobs(pid, tier, seed):
+    """Variants of shipped configurations: other scheduler, more particles, other sampling parameters."""
+    P = runs.P
+    out = []
+    legs = 300 if tier == "quick" else 2000
+    out.append(dict(name="gen_atoms_list_8", config=P + "coulomb_atoms/power_bounded.ini", seed=seed + 11, legs=legs,
+                    sets=["SingleProcessMediator.scheduler=list_scheduler", "RandomInputHandler.number_of_root_nodes=8",
+                          "Coulomb.number_event_handlers=8",
+                          "FinalTimeEndOfRunEventHandler.end_of_run_time=7.5",
+                          "FixedIntervalSamplingEventHandler.sampling_interval=0.3"]))
+    out.append(dict(name="gen_atoms_cellveto_24", config=P + "coulomb_atoms/cell_veto.ini", seed=seed + 12, legs=legs * 2,
+                    sets=["RandomInputHandler.number_of_root_nodes=24", "FinalTimeEndOfRunEventHandler.end_of_run_time=12",
+                          "CoulombNearby.number_event_handlers=24", "CoulombSurplus.number_event_handlers=24"]))
+    out.append(dict(name="gen_atoms_cellbounded_12", config=P + "coulomb_atoms/cell_bounded.ini", seed=seed + 13, legs=legs * 2,
+                    sets=["RandomInputHandler.number_of_root_nodes=12", "FinalTimeEndOfRunEventHandler.end_of_run_time=12",
+                          "CoulombNearby.number_event_handlers=12", "CoulombSurplus.number_event_handlers=12",
+                          "CoulombCellBounding.number_event_handlers=12"]))
+    out.append(dict(name="gen_dipoles_cellveto_6", config=P + "dipoles/cell_veto.ini", seed=seed + 14, legs=legs * 2,
+                    sets=["RandomInputHandler.number_of_root_nodes=6", "FinalTimeEndOfRunEventHandler.end_of_run_time=12",
+                          "CoulombNearby.number_event_handlers=6", "CoulombSurplus.number_event_handlers=6",
+                          "Repulsive.number_event_handlers=6"]))
+    out.append(dict(name="gen_motion_zero_first", config=P + "dipoles/dipole_motion.ini", seed=seed + 15, legs=legs * 2,
+                    sets=["FixedIntervalSamplingEventHandler.first_event_time_zero=True",
+                          "FixedIntervalSamplingEventHandler.sampling_interval=0.07",
+                          "FinalTimeEndOfRunEventHandler.end_of_run_time=9.3"]))
+    out.append(dict(name="gen_water_cellveto_4", config=P + "water/coulomb_cell_veto_lj_cell_veto.ini", seed=seed + 16,
+                    legs=legs, sets=["RandomInputHandler.number_of_root_nodes=4",
+                                     "FinalTimeEndOfRunEventHandler.end_of_run_time=6",
+                                     "CoulombNearby.number_event_handlers=4", "CoulombSurplus.number_event_handlers=4",
+                                     "LennardJonesNearby.number_event_handlers=4",
+                                     "LennardJonesSurplus.number_event_handlers=4"]))
+    if pid in ("C10", "C11", "C18"):
+        out = [j for j in out if "cell" in j["name"]]
+    if pid == "C12":
+        out = [j for j in out if "dipole" in j["name"] or "water" in j["name"] or "motion" in j["name"]]
+    return out
+
+
+def trace_stats(path):
+    c = collections.Counter()
+    meta = None
+    for line in open(path):
+        d = json.loads(line)
+        c[d["ev"]] += 1
+        if d["ev"] == "init":
+            meta = d
+        elif d["ev"] == "out":
+            c["thin"] += len(d["sub"]["thin"])
+            c["lift"] += len(d["sub"]["lift"])
+            c["thin_confirmed"] += sum(1 for t in d["sub"]["thin"] if t["drawn"])
+        elif d["ev"] == "time":
+            c["cellveto"] += 1 if "cellveto" in d["sub"] else 0
+        elif d["ev"] == "run":
+            c["cells"] += len(d["cells"])
+            c["surplus_nonempty"] += sum(1 for x in d["cells"] if x["surplus"])
+        elif d["ev"] == "commit":
+            c["c12"] += len(d.get("c12", []))
+        elif d["ev"] == "write":
+            c["write_state"] += 1 if d["kind"] == "state" else 0
+        elif d["ev"] == "next" and meta is not None:
+            kind = None
+            if d["hid"]:
+                tag = meta["handlers"][d["hid"] - 1]["tag"]
+                kind = meta["taggers"][tag - 1]["kind"]
+                c["commit_kind_" + kind] += 1
+                if kind in ("factor_map", "excluded_cells", "surplus_cells", "cell_bounding", "cell_veto"):
+                    c["commit_interaction"] += 1
+    return c
 
 
 def run_for(chk, pid, sc=None):
-    return
+    if sc is None:
+        with Scratch() as sc2:
+            return run_for(chk, pid, sc2)
+    jobs = jobs_for(pid, chk.tier, chk.seed)
+    results = runs.record_and_validate(sc, jobs)
+    total = collections.Counter()
+    chk.trusted += ["harness/recorder.py (class-level wrappers, interning, exact-rational residuals)",
+                    "harness/f64.py key encoding"]
+    chk.assumptions.append("run-level clauses hold on the recorded legs of the listed runs (seeded), not on all histories")
+    for r in results:
+        name = r["job"]["name"]
+        st = r["status"]
+        if r.get("tlc") is not None:
+            chk.add_tlc("TraceEcmc/" + name, r["tlc"])
+        if not st.get("ok"):
+            if st.get("exc") == "harness":
+                chk.machinery("run %s: harness failure: %s" % (name, st.get("msg")))
+            else:
+                chk.violation("run-exception:%s" % st.get("exc"),
+                              "real run %s terminated by %s: %s" % (name, st.get("exc"), st.get("msg")),
+                              dict(job=r["job"], tb=st.get("tb")))
+        v = r.get("verdict")
+        if v is None:
+            if st.get("ok"):
+                chk.machinery("run %s: trace not validated (%s)" % (name, r.get("tlc").error if r.get("tlc") else "no trace"))
+            continue
+        nlines, viol = v
+        chk.traces += 1
+        chk.evaluations += nlines
+        stats = trace_stats(r["trace"])
+        total.update(stats)
+        mine = sorted(x for x in viol if x[0] == pid)
+        if mine:
+            lines = open(r["trace"]).read().splitlines()
+            keep = os.path.join(os.path.dirname(os.path.dirname(os.path.abspath(__file__))), "out", "traces")
+            os.makedirs(keep, exist_ok=True)
+            kept = os.path.join(keep, "%s_%s.ndjson" % (pid, name))
+            with open(kept, "w") as f:
+                f.write("\n".join(lines[:mine[0][1] + 5]) + "\n")
+            for p, line, clause in mine:
+                rec = json.loads(lines[line - 1])
+                chk.violation("trace:" + clause.split(":")[0],
+                              "run %s, record %d (%s): %s" % (name, line, rec["ev"], clause),
+                              dict(job=r["job"], record=rec, trace_prefix=kept, total_for_property=len(mine)))
+        if len(chk.samples) < 2:
+            chk.sample(dict(run=name, records=nlines, counts={k: stats[k] for k in sorted(stats) if stats[k]}))
+    chk.notes["run_record_counts"] = dict(total)
+    for need in NEEDS.get(pid, []):
+        if not total.get(need):
+            chk.machinery("vacuous: no '%s' records in any recorded run for %s" % (need, pid))
